@@ -59,8 +59,11 @@ func (t *pt) String() string {
 	if t.op == "sub" {
 		extra = fmt.Sprintf(",%d,%d", t.k, t.n.Int64())
 	}
-	if t.op == "byte" || t.op == "trunc" {
+	if t.op == "byte" || t.op == "trunc" || t.op == "quo" || t.op == "rem" {
 		extra = fmt.Sprintf(",%d", t.k)
+	}
+	if t.op == "ld" {
+		extra = fmt.Sprintf(",obj%d,@%s", t.k, t.n)
 	}
 	return t.op + "(" + strings.Join(as, ",") + extra + ")"
 }
@@ -250,6 +253,14 @@ func domainFacts(terms []*pt) []Fact {
 			out = append(out, Fact{E: self}, Fact{E: self.Sub(linTerm(pOp("len", t.args[0]).String(), false))})
 		case "needexp", "asmret":
 			out = append(out, Fact{E: self}, Fact{E: linConst(1).Sub(self)})
+		case "rem":
+			out = append(out, Fact{E: self}, Fact{E: linConst(int64(1)<<uint(t.k) - 1).Sub(self)})
+		case "quo":
+			// x == 2^m * quo + rem
+			r := linTerm((&pt{op: "rem", args: t.args, k: t.k}).String(), false)
+			x := pl.lin(t.args[0])
+			e := x.Sub(self.Scale(int64(1) << uint(t.k))).Sub(r)
+			out = append(out, Fact{E: e}, Fact{E: e.Scale(-1)}, Fact{E: r}, Fact{E: linConst(int64(1)<<uint(t.k) - 1).Sub(r)})
 		case "byte":
 			out = append(out, Fact{E: self}, Fact{E: linConst(255).Sub(self)})
 		case "mod", "inv":
@@ -301,6 +312,46 @@ func proveP(facts []pFact, a *pt, op token.Token, b *pt) bool {
 		}
 	}
 	lf = append(lf, domainFacts(terms)...)
+	// every atom is an integer: a constraint whose coefficients share a factor g is tightened to the integer hull
+	// (sum a_i t_i + C >= 0 with g | a_i  =>  sum (a_i/g) t_i + floor(C/g) >= 0)
+	for i, f := range lf {
+		lf[i] = Fact{E: intTighten(f.E)}
+	}
+	// a quotient of a non-negative value is non-negative
+	{
+		seen := map[string]bool{}
+		var visit func(t *pt)
+		visit = func(t *pt) {
+			if t == nil {
+				return
+			}
+			for _, x := range t.args {
+				visit(x)
+			}
+			isCounter := t.op == "param" && len(t.s) > 1 && t.s[0] == 'k' && t.s[1] >= '0' && t.s[1] <= '9'
+			if (t.op == "quo" || isCounter) && !seen[t.String()] {
+				seen[t.String()] = true
+				self := linTerm(t.String(), false)
+				if t.op == "quo" && ProveNonNeg(pl.lin(t.args[0]), lf) {
+					lf = append(lf, Fact{E: self})
+				}
+				// integer rounding of derived bounds on quotients and loop counters: t > c - 1 implies t >= c
+				for c := int64(1); c <= 2; c++ {
+					if ProveNonNeg(self.Scale(64).Sub(linConst(64*c-63)), lf) {
+						lf = append(lf, Fact{E: self.Sub(linConst(c))})
+					}
+				}
+				for c := int64(0); c <= 2; c++ {
+					if ProveNonNeg(linConst(64*c+63).Sub(self.Scale(64)), lf) {
+						lf = append(lf, Fact{E: linConst(c).Sub(self)})
+					}
+				}
+			}
+		}
+		for _, t := range terms {
+			visit(t)
+		}
+	}
 	for outer := 0; outer < 2; outer++ {
 		// disequalities: x != 0 and x >= 0  =>  x >= 1
 		for round := 0; round < 2; round++ {
@@ -435,6 +486,9 @@ type protoDom struct {
 	draws   int
 	globals map[string]func(st *sState) sVal
 	notes   []string
+	gLocals      int
+	stream       bool // stream domain (package sm3): mutable fields, struct copies, loop acceleration
+	loopVars     int
 	structPoints bool // decoder mode: SM2Point values are ordinary structs of three elements
 	glue         bool // glue mode: slices are symbolic shapes (checker/glue.go)
 	contracts    map[string]*xContract
@@ -462,6 +516,11 @@ func (d *protoDom) binop(st *sState, x *ssa.BinOp, a, b sVal) (sVal, bool) {
 	_, pb := b.(pInt)
 	if !oka || !okb || (!pa && !pb) {
 		return nil, false
+	}
+	if d.stream {
+		if v, ok := d.streamBinop(x, a, b); ok {
+			return v, true
+		}
 	}
 	switch x.Op {
 	case token.ADD:
@@ -648,4 +707,44 @@ func typeIsBigInt(t types.Type) bool {
 		}
 	}
 	return false
+}
+
+func intTighten(l *Lin) *Lin {
+	var g int64
+	for _, c := range l.T {
+		if c < 0 {
+			c = -c
+		}
+		if c == 0 {
+			continue
+		}
+		if g == 0 {
+			g = c
+		} else {
+			for a, b := g, c; ; {
+				if b == 0 {
+					g = a
+					break
+				}
+				a, b = b, a%b
+			}
+		}
+	}
+	if g <= 1 {
+		return l
+	}
+	out := linConst(0)
+	for k, c := range l.T {
+		out.T[k] = c / g
+		if l.NonNeg[k] {
+			out.NonNeg[k] = true
+		}
+	}
+	// floor division of the constant
+	q := l.C / g
+	if l.C%g != 0 && l.C < 0 {
+		q--
+	}
+	out.C = q
+	return out
 }
